@@ -28,7 +28,7 @@ ASSUMPTIONS = [
     "'immediately' = the two status requests are among the frames the console receives within 50 ms (+ link latency) of the new connection",
     "poll deadlines within 0.1 s of a group status arrival or of a connection change are not judged",
 ]
-PROBES = ["c14.poll_write_error", "c14.fin", "c14.rst", "c14.blackhole", "c14.reboot", "c14.write_error", "c14.state_changed_while_down", "c14.unchanged_refresh",
+PROBES = ["c14.poll_deadline_in_outage", "c14.silence_after_outage", "c14.poll_write_error", "c14.fin", "c14.rst", "c14.blackhole", "c14.reboot", "c14.write_error", "c14.state_changed_while_down", "c14.unchanged_refresh",
           "c14.outage_beyond_heartbeat", "c14.second_outage", "c14.poll_after_outage", "c14.poll_fired", "c14.poll_repeated", "c14.poll_pushed_back"]
 
 
@@ -121,7 +121,17 @@ def gen_poll(rng) -> dict:
         if t < 1450.0:
             tl.append({"at": t, "op": "console.publish", "what": "zone", "ids": [rng.choice(zones)] if rng.random() < 0.5 else None})
     info = {"mode": mode}
-    if rng.random() < 0.3:
+    if mode == "silent" and rng.random() < 0.35:
+        # an outage the client knows about (FIN, refused reconnects) that contains a poll deadline, and a console that does not
+        # answer the refresh's group status request afterwards either: the silence goes on, so must the polling
+        k = rng.choice([1, 2])
+        t_o = 300.0 * k - rng.choice([2.0, 10.0, 40.0])
+        n_ref = rng.choice([5, 15, 40])
+        tl.append({"at": t_o - G.EPS, "op": "net.fates", "fates": [{"kind": "refuse", "latency": 0.0}] * n_ref + [{"kind": "accept", "latency": 0.0}]})
+        tl.append({"at": t_o, "op": "net.fin"})
+        info["outage_at"] = t_o
+        info["deadline_in_outage"] = True
+    elif rng.random() < 0.3:
         t_o = G.dyadic(rng, 20.0, 700.0)
         tl.append({"at": t_o - G.EPS, "op": "net.fates", "fates": [{"kind": "accept", "latency": rng.choice([0.0, 1.0])}]})
         tl.append({"at": t_o, "op": rng.choice(["net.fin", "net.rst"])})
@@ -248,8 +258,17 @@ def execute_poll(sc: dict) -> dict:
         expected.append(D)
         D += 300.0
     downs = [e[1] for e in w.trace.events if e[2] in ("rx.fin", "rx.rst", "conn.lost")]
+    outages = []
+    for u in ups:
+        before = [x for x in downs if x <= u]
+        if before:
+            outages.append((max(before), u))
     for d in expected:
         if any(abs(d - x) < 1.5 for x in ups + downs):
+            skip_near.append(d)
+        # a deadline that passes while the client knows the link is down cannot be acted on; where the client's next
+        # deadline lies is then its own business (the rule at the end still demands a request while the silence lasts)
+        if any(a - 1.5 <= d <= b + 1.5 for (a, b) in outages):
             skip_near.append(d)
     expected = [d for d in expected if d < end - 0.1]
     reqs = [r for r in reqs if r < end - 0.1]
@@ -273,6 +292,20 @@ def execute_poll(sc: dict) -> dict:
             if not any(abs(r - d) <= 0.05 for d in expected):
                 V.append(viol("C14.poll_spurious", {"request_at": r, "expected": expected[:8], "arrivals": arrivals[:8]}))
                 break
+    # "for as long as the silence lasts": after the last reconnection, with no group status arriving any more, a request must
+    # follow within two poll periods whatever the phase of the client's deadline is
+    if ups and not V:
+        t_r = max(ups)
+        later_arrivals = [a for a in arrivals if a > t_r + 1.0]
+        later_downs = [d for d in downs if d > t_r + 0.5]
+        if sc["info"].get("deadline_in_outage"):
+            probes["c14.poll_deadline_in_outage"] = 1
+        if not later_arrivals and not later_downs and end - t_r > 620.0:
+            all_reqs = [e["t"] for e in w.console.rx if e["reading"]["kind"] == "group_status_request" and t_r + 1.0 < e["t"] <= t_r + 610.0]
+            probes["c14.silence_after_outage"] = 1
+            if not all_reqs:
+                V.append(viol("C14.poll_missing", {"why": "no group status request within 610 s of silence after the reconnection", "reconnected_at": t_r,
+                                                   "mode": sc["info"]["mode"], "outage_at": sc["info"].get("outage_at")}, first=False, after_outage=True))
     return common.result(w, V, nontrivial=True, probes=probes)
 
 
